@@ -444,13 +444,8 @@ def run_case(case):
                 res = apply_stub_using_libcst(stub, src, case["overwrite"], case["confine"])
                 res2 = apply_stub_using_libcst(stub, res, case["overwrite"], case["confine"])
         except HandlerError as e:
-            rec["failed"], rec["err"] = True, str(e)[:300]
-            if case.get("via_cli"):      # a command that gives up must leave the module as it found it
-                try:
-                    with open(path, "rb") as fh:
-                        rec["file_changed_by_failed_apply"] = fh.read() != src.encode("latin-1" if latin1 else "utf-8")
-                except OSError:
-                    rec["file_changed_by_failed_apply"] = True
+            rec["failed"], rec["err"] = True, str(e)[:300].replace(" [[module file changed]]", "")
+            rec["file_changed_by_failed_apply"] = "[[module file changed]]" in str(e)
             return rec
         rec["res"] = res[:2500]
         rec["res_full"] = res
@@ -545,15 +540,24 @@ def apply_via_cli(w, name, path, traces, case):
     try:
         for attempt in range(2):
             out, err = io.StringIO(), io.StringIO()
+            with open(path, "rb") as fh:
+                before = fh.read()
+
+            def touched():      # a command that gives up must leave the module file as it found it
+                try:
+                    with open(path, "rb") as fh2:
+                        return " [[module file changed]]" if fh2.read() != before else ""
+                except OSError:
+                    return " [[module file changed]]"
             try:
                 rc = cli.main(argv, out, err)
             except Exception as e:           # the command itself died
                 if attempt == 0:
-                    raise HandlerError("apply raised %s: %s" % (type(e).__name__, e))
+                    raise HandlerError("apply raised %s: %s%s" % (type(e).__name__, str(e)[:150], touched()))
                 outs.append("<second apply raised %s: %s>" % (type(e).__name__, e))   # "a second time changes nothing" is false
                 break
             if rc != 0:
-                raise HandlerError("apply exited %s: %s" % (rc, err.getvalue()[-200:]))
+                raise HandlerError("apply exited %s: %s%s" % (rc, err.getvalue()[-150:], touched()))
             import tokenize
             with tokenize.open(path) as fh:           # as Python itself reads the file (coding cookie / BOM)
                 outs.append(fh.read())
